@@ -90,7 +90,8 @@ InterpreterEnv::InterpreterEnv(std::vector<valtype>& stack_in, const CScript& sc
 
     operational = true;
     set_error(serror, SCRIPT_ERR_UNKNOWN_ERROR);
-    if (script.size() > MAX_SCRIPT_SIZE) {
+    // the 10,000 byte limit applies to legacy and segwit v0 scripts only (BIP342 lifts it for tapscript)
+    if ((sigversion == SigVersion::BASE || sigversion == SigVersion::WITNESS_V0) && script.size() > MAX_SCRIPT_SIZE) {
         set_error(serror, SCRIPT_ERR_SCRIPT_SIZE);
         operational = false;
         return;
